@@ -19,7 +19,7 @@ property_meta('C02', level='proof', min_obligations=30,
                            'float accuracy near angle pi / |w| <= eps: bounded stand-in'],
               explanation='regime contracts of the quaternion log in atan atoms; inverse lemmas by normal form over the atom relations')
 
-QREG = ('generic', 'identity', 'nearpi', 'halfturn', 'small', 'neg')
+QREG = ('generic', 'identity', 'nearpi', 'halfturn', 'small', 'neg', 'weps')
 
 
 def so3_log_spec(env, X):
